@@ -131,9 +131,9 @@ Proof. rewrite !adel_all_filter. apply filter_idem. Qed.
 
 (* ------------------------------------------------------------------ what a table and a mapping are *)
 Definition md_norm (md : option (list assoc)) (n : nat) : Prop :=
-  match md with Some l => length l = n /\ l <> [] | None => True end.
-(* what the constructor establishes: distinct ids; metadata is None or one dict per id (and
-   never an empty tuple) *)
+  match md with Some l => length l = n /\ forallb Metadata.is_nil l = false | None => True end.
+(* what the constructor and _cast_metadata establish: distinct ids; metadata is None or one dict
+   per id, not all of them empty *)
 Definition mwf (t : mtab) : Prop :=
   NoDup (m_oids t) /\ NoDup (m_sids t)
   /\ md_norm (m_omd t) (length (m_oids t)) /\ md_norm (m_smd t) (length (m_sids t)).
@@ -151,7 +151,28 @@ Definition md_lookup (t : mtab) (a : axis) (id k : text) : option Tree :=
   end.
 
 Lemma md_norm_cast md n : md_norm md n -> cast_md md = md.
-Proof. destruct md as [[|e l]|]; simpl; [intros [_ H]; congruence|reflexivity|reflexivity]. Qed.
+Proof. destruct md as [l|]; simpl; [intros [_ H]; rewrite H; reflexivity|reflexivity]. Qed.
+
+Lemma aset_ne a k v : aset a k v <> [].
+Proof. destruct a as [|[k' v'] r]; simpl; [discriminate|]. destruct (text_eqb k k'); discriminate. Qed.
+
+Lemma aupdate_ne a e : a <> [] -> aupdate a e <> [].
+Proof.
+  unfold aupdate. revert a. induction e as [|[k v] e IH]; intros a H; simpl; [exact H|].
+  apply IH. apply aset_ne.
+Qed.
+
+Lemma some_nonempty (l : list assoc) :
+  forallb Metadata.is_nil l = false <-> exists j, (j < length l)%nat /\ nth j l [] <> [].
+Proof.
+  induction l as [|e l IH]; simpl.
+  - split; [discriminate|]. intros [j [H _]]. lia.
+  - destruct e as [|p e]; simpl.
+    + rewrite IH. split.
+      * intros [j [A B]]. exists (S j). split; [lia|exact B].
+      * intros [[|j] [A B]]; [congruence|]. exists j. split; [lia|exact B].
+    + split; [|reflexivity]. intros _. exists 0%nat. split; [lia|discriminate].
+Qed.
 
 Lemma mlookup_notin id m : ~ In id (map fst m) -> mlookup id m = None.
 Proof.
@@ -173,6 +194,18 @@ Lemma fold_add_length ids m : forall l, length (fold_left (add_step ids) m l) = 
 Proof.
   induction m as [|p m IH]; intros l; simpl; [reflexivity|]. rewrite IH. unfold add_step.
   destruct (tpos (fst p) ids); [apply upd_length|reflexivity].
+Qed.
+
+Lemma fold_add_nonempty ids m : forall l,
+  forallb Metadata.is_nil l = false -> forallb Metadata.is_nil (fold_left (add_step ids) m l) = false.
+Proof.
+  induction m as [|p m IH]; intros l H; simpl; [exact H|]. apply IH. unfold add_step.
+  destruct (tpos (fst p) ids) as [i|]; [|exact H].
+  apply some_nonempty in H. destruct H as [j [A B]]. apply some_nonempty.
+  exists j. rewrite upd_length. split; [exact A|].
+  destruct (Nat.eq_dec i j) as [E|E].
+  - subst. rewrite nth_upd_eq by exact A. apply aupdate_ne. exact B.
+  - rewrite nth_upd_neq by exact E. exact B.
 Qed.
 
 Lemma fold_add_nth ids m i : NoDup ids -> (i < length ids)%nat -> forall l, length l = length ids ->
@@ -225,18 +258,16 @@ Proof.
   intros Hnd Hn [Hm1 Hm2] i k Hi. unfold added. destruct md as [l|]; unfold add_axis.
   - destruct Hn as [Hl Hne].
     assert (Hc : cast_md (Some (fold_left (add_step ids) m l)) = Some (fold_left (add_step ids) m l)).
-    { apply (md_norm_cast _ (length ids)). split; [rewrite fold_add_length; exact Hl|].
-      intros E. apply (f_equal (@length assoc)) in E. rewrite fold_add_length in E. simpl in E.
-      destruct l; [congruence|discriminate]. }
+    { apply (md_norm_cast _ (length ids)). split; [rewrite fold_add_length; exact Hl|apply fold_add_nonempty; exact Hne]. }
     rewrite Hc. simpl entry_of. rewrite (fold_add_nth ids m i Hnd Hi l Hl).
     rewrite (fold_cond_unique _ m Hm1).
     destruct (mlookup (nth i ids []) m) as [e|] eqn:E; [|reflexivity].
     apply aget_aupdate. rewrite Forall_forall in Hm2. apply (Hm2 _ (mlookup_In _ _ _ E)).
-  - unfold cast_opt. destruct (forallb is_none (map (fun id => mlookup id m) ids)) eqn:F.
+  - unfold cast_opt. destruct (forallb opt_empty (map (fun id => mlookup id m) ids)) eqn:F.
     + simpl. rewrite forallb_forall in F.
-      assert (H : is_none (mlookup (nth i ids []) m) = true).
+      assert (H : opt_empty (mlookup (nth i ids []) m) = true).
       { apply F. apply in_map_iff. exists (nth i ids []). split; [reflexivity|apply nth_In; exact Hi]. }
-      destruct (mlookup (nth i ids []) m); [discriminate|reflexivity].
+      destruct (mlookup (nth i ids []) m) as [[|p e]|]; [reflexivity|discriminate|reflexivity].
     + simpl entry_of.
       rewrite (@nth_map_lt (option assoc) assoc _ _ i [] None) by (rewrite map_length; exact Hi).
       rewrite (@nth_map_lt text (option assoc) _ _ i None []) by exact Hi.
@@ -244,19 +275,17 @@ Proof.
 Qed.
 
 Lemma add_axis_none ids md m : md_norm md (length ids) ->
-  (add_axis ids md m = None <-> md = None /\ forall id, In id ids -> mlookup id m = None).
+  (add_axis ids md m = None <-> md = None /\ forall id, In id ids -> opt_empty (mlookup id m) = true).
 Proof.
   intros Hn. destruct md as [l|]; unfold add_axis.
   - destruct Hn as [Hl Hne]. split; [|intros [H _]; discriminate]. intros H. exfalso.
-    destruct (fold_left (add_step ids) m l) eqn:E; [|discriminate].
-    apply (f_equal (@length assoc)) in E. rewrite fold_add_length in E. simpl in E. destruct l; [congruence|discriminate].
-  - unfold cast_opt. destruct (forallb is_none (map (fun id => mlookup id m) ids)) eqn:F.
+    unfold cast_md in H. rewrite (fold_add_nonempty ids m l Hne) in H. discriminate.
+  - unfold cast_opt. destruct (forallb opt_empty (map (fun id => mlookup id m) ids)) eqn:F.
     + split; [|reflexivity]. intros _. split; [reflexivity|]. intros id Hin. rewrite forallb_forall in F.
-      destruct (mlookup id m) as [a|] eqn:E; [|reflexivity].
-      assert (is_none (Some a) = true) by (apply F; apply in_map_iff; exists id; split; [exact E|exact Hin]). discriminate.
+      apply F. apply in_map_iff. exists id. split; [reflexivity|exact Hin].
     + split; [discriminate|]. intros [_ H]. exfalso.
-      assert (forallb is_none (map (fun id => mlookup id m) ids) = true).
-      { apply forallb_forall. intros o Ho. apply in_map_iff in Ho. destruct Ho as [id [E Hin]]. subst. rewrite (H id Hin). reflexivity. }
+      assert (forallb opt_empty (map (fun id => mlookup id m) ids) = true).
+      { apply forallb_forall. intros o Ho. apply in_map_iff in Ho. destruct Ho as [id [E Hin]]. subst. apply H. exact Hin. }
       congruence.
 Qed.
 
@@ -266,7 +295,7 @@ Theorem add_md_local_proof t m a : mwf t -> mapping_wf m ->
   m_oids t' = m_oids t /\ m_sids t' = m_sids t /\ m_mat t' = m_mat t
   /\ m_mds (other a) t' = m_mds (other a) t
   /\ (forall id k, In id (m_ids a t) -> md_lookup t' a id k = added m id k (md_lookup t a id k))
-  /\ (m_mds a t' = None <-> m_mds a t = None /\ forall id, In id (m_ids a t) -> mlookup id m = None).
+  /\ (m_mds a t' = None <-> m_mds a t = None /\ forall id, In id (m_ids a t) -> opt_empty (mlookup id m) = true).
 Proof.
   intros (W1 & W2 & W3 & W4) Hm. destruct a; simpl.
   - split; [reflexivity|]. split; [reflexivity|]. split; [reflexivity|].
@@ -297,11 +326,12 @@ Proof.
   { intros ids md Hn. destruct md as [l|]; unfold add_axis.
     - destruct Hn as [Hl Hne].
       assert (Hf : md_norm (Some (fold_left (add_step ids) m l)) (length ids)).
-      { split; [rewrite fold_add_length; exact Hl|]. intros E. apply (f_equal (@length assoc)) in E.
-        rewrite fold_add_length in E. destruct l; simpl in E; [congruence|discriminate]. }
+      { split; [rewrite fold_add_length; exact Hl|apply fold_add_nonempty; exact Hne]. }
       rewrite (md_norm_cast _ _ Hf). exact Hf.
-    - unfold cast_opt. destruct (forallb is_none (map (fun id => mlookup id m) ids)) eqn:F; simpl; [trivial|].
-      split; [rewrite !map_length; reflexivity|]. intros E. apply map_eq_nil in E. rewrite E in F. discriminate. }
+    - unfold cast_opt. destruct (forallb opt_empty (map (fun id => mlookup id m) ids)) eqn:F; simpl; [trivial|].
+      split; [rewrite !map_length; reflexivity|]. rewrite <- F.
+      generalize (map (fun id => mlookup id m) ids). intros lo. clear.
+      induction lo as [|o lo IH]; simpl; [reflexivity|]. rewrite IH. destruct o as [[|p e]|]; reflexivity. }
   destruct a; simpl; unfold mwf; simpl; repeat split; try assumption.
   - apply K; exact W3.
   - rewrite (md_norm_cast _ _ W4). exact W4.
@@ -748,7 +778,7 @@ Proof.
 Qed.
 
 Definition md_normb (md : option (list assoc)) (n : nat) : bool :=
-  match md with Some l => Nat.eqb (length l) n && negb (Metadata.is_nil l) | None => true end.
+  match md with Some l => Nat.eqb (length l) n && negb (forallb Metadata.is_nil l) | None => true end.
 Definition mwfb (t : mtab) : bool :=
   negb (tdup (m_oids t)) && negb (tdup (m_sids t))
   && md_normb (m_omd t) (length (m_oids t)) && md_normb (m_smd t) (length (m_sids t)).
@@ -758,7 +788,7 @@ Definition mapping_wfb (m : mapping) : bool :=
 Lemma md_normb_ok md n : md_normb md n = true -> md_norm md n.
 Proof.
   destruct md as [l|]; simpl; [|trivial]. rewrite andb_true_iff, negb_true_iff, Nat.eqb_eq.
-  intros [A B]. split; [exact A|destruct l; [discriminate|discriminate]].
+  intros [A B]. split; [exact A|exact B].
 Qed.
 Lemma mwfb_ok t : mwfb t = true -> mwf t.
 Proof.
@@ -829,3 +859,25 @@ Module MdExamples.
            ([83;51], [(n_ph, tStr [97;98;99]); (n_tax, tList [tStr [120]; tStr [121]]); (n_days, tStr [48;48;55])])].
   Proof. vm_compute. reflexivity. Qed.
 End MdExamples.
+
+(* ------------------------------------------------------------------ histories over several tables *)
+Definition target (i : minstr) : nat := match i with IAdd ti _ _ => ti | IDel ti _ _ => ti end.
+
+Lemma mstep_length ts i : length (mstep ts i) = length ts.
+Proof. destruct i; simpl; apply upd_length. Qed.
+
+(* a step changes no table but its receiver: the donor of a referenced metadata object, a
+   sibling, any other table keeps ids, matrix and metadata *)
+Lemma mstep_frame_proof ts i j : j <> target i -> nth j (mstep ts i) mt_empty = nth j ts mt_empty.
+Proof. intros H. destruct i; simpl in *; apply nth_upd_neq; congruence. Qed.
+
+(* ... and on the receiver it is add_metadata with the referenced entries taken by value, so
+   add_md_local applies to it: two ids that received the same object stay independent *)
+Lemma mstep_add_target_proof ts ti a m : (ti < length ts)%nat ->
+  nth ti (mstep ts (IAdd ti a m)) mt_empty
+  = add_metadata (nth ti ts mt_empty) (map (fun p => (fst p, resolve ts (snd p))) m) a.
+Proof. intros H. simpl. apply nth_upd_eq. exact H. Qed.
+
+Lemma mstep_del_target_proof ts ti keys s : (ti < length ts)%nat ->
+  nth ti (mstep ts (IDel ti keys s)) mt_empty = del_metadata (nth ti ts mt_empty) keys s.
+Proof. intros H. simpl. apply nth_upd_eq. exact H. Qed.
